@@ -44,8 +44,8 @@ CLAIMED = {
              "in the code-shaped framing model (safety + liveness); the real HsmsProtocol receive path is fed all partitions "
              "with <= 3 segments, byte-wise and random partitions under fifo/random/PCT schedules and TLC validates the "
              "deliveries recorded after every segment.",
-        note="frames with SType outside the E37 table and PType != 0 are outside the property; partitions of long streams are "
-             "sampled",
+        note="frames with SType outside the E37 table are outside the property; partitions of long streams are sampled; the "
+             "receiver / dispatcher loops are additionally modelled (DispatcherLoops) and bound by trace validation",
         design="5/C04"),
     "C09": dict(
         technique="implementation-shaped TLA+ model HsmsClose (threads as processes; safety + liveness by TLC) + fault "
